@@ -80,9 +80,22 @@ def gen_loc_forest(rng):
     f = Forest(units)
     if rng.random() < 0.5:
         f.abbrev_decl_seed = rng.getrandbits(30)
+    f.abbrev_code_style = rng.choice([None, None, "high", "huge"])
+    # DWARF 5: about half of the lists are picked through the offset table (DW_FORM_loclistx + DW_AT_loclists_base of the unit),
+    # in an order other than the one they are stored in
+    indexed = [sp for sp in specs if sp[2] == "list" and sp[1].version >= 5 and rng.random() < 0.5]
+    slots = list(range(len(indexed)))
+    rng.shuffle(slots)
+    index_of = {}
+    for sp, slot in zip(indexed, slots):
+        d, u, at = sp[0], sp[1], sp[3][3]
+        index_of[id(d)] = slot
+        d.attrs = [(a, "loclistx", slot) if a == at else (a, fm, v) for a, fm, v in d.attrs]
+        if u.root.at("loclists_base") is None:
+            u.root.attrs.append(("loclists_base", "sec_offset", 12))
     w = dwgen.Writer(f)
     w.layout()
-    sec = dwloc.LocSection()
+    sec = dwloc.LocSection(len(indexed))
     truth = {}
     for d, u, kind, payload in specs:
         if kind == "expr":
@@ -91,11 +104,11 @@ def gen_loc_forest(rng):
         else:
             entries, exps, base, at = payload
             if u.version >= 5:
-                off, ranges = sec.add_loclists(w, u, base, entries)
+                off, ranges = sec.add_loclists(w, u, base, entries, index_of.get(id(d)))
             else:
                 off, ranges = sec.add_loc(w, u, base, entries)
             for i, (a, fm, v) in enumerate(d.attrs):
-                if a == at:
+                if a == at and fm != "loclistx":
                     d.attrs[i] = (a, fm, off)
             truth[d.offset] = dict(unit=u, at=at, elems=[dict(low=lo, high=hi, ops=o, exp=e) for (lo, hi), (o, e) in zip(ranges, exps)])
     f.debug_loc, f.debug_loclists = sec.finish()
